@@ -352,6 +352,8 @@ def std_trait(engine, st, ty, tyb, tb, method, args, dest_ty, trait=None):
             return inner
         if tb == 'Borrow' and isinstance(a, RefV):
             return a            # impl<T> Borrow<T> for T
+        if isinstance(a, RefV) and (isinstance(inner, Opaque) or (isinstance(inner, Agg) and (inner.ty == 'FormattedTime' or inner.ty.startswith('StrIs:')))):
+            return a            # &String -> &str: the same text
         raise Inconclusive(f'deref of {inner!r}')
     if tb == 'Clone' and method == 'clone':
         inner = unref(args[0])
@@ -382,11 +384,19 @@ def std_trait(engine, st, ty, tyb, tb, method, args, dest_ty, trait=None):
             raise
     if tb == 'Try' and method == 'branch':
         o = args[0]
+        if isinstance(o, EnumV) and tyb == 'Result':
+            ok = engine.split_bool(st, o.discr == 0)
+            if ok:
+                return EnumV('ControlFlow', 0, {0: [(o.payload.get(0) or [UnitV()])[0]]})
+            return EnumV('ControlFlow', 1, {1: [EnumV('Result<Infallible, E>', 1, {1: list(o.payload.get(1, []))})]})
         if isinstance(o, EnumV):
             some = engine.split_bool(st, o.discr == 1)
             if some:
                 return EnumV('ControlFlow', 0, {0: [o.payload[1][0]]})
             return EnumV('ControlFlow', 1, {1: [EnumV(dest_ty, 0, {})]})
+    if tb == 'FromResidual' and method == 'from_residual' and tyb == 'Result':
+        r = args[0]
+        return EnumV(dest_ty, 1, {1: list(r.payload.get(1, [])) if isinstance(r, EnumV) else []})
     if tb == 'FromResidual' and method == 'from_residual':
         return EnumV(dest_ty, 0, {})
     if tb in ('Iterator', 'DoubleEndedIterator', 'IntoIterator', 'ExactSizeIterator'):
@@ -422,6 +432,9 @@ def std_trait(engine, st, ty, tyb, tb, method, args, dest_ty, trait=None):
         return RefV(s, i)
     if tyb == 'f64' and tb in ('Add', 'Sub', 'Mul'):
         return engine.binop(st, tb, args[0], args[1])
+    if tb in ('Add', 'Sub', 'Mul') and method in ('add', 'sub', 'mul') and isinstance(deref_all(args[0]), IV) and isinstance(deref_all(args[1]), IV):
+        # operator impls on (references to) primitive integers: overflow-checked like the plain operator
+        return engine.binop(st, tb, deref_all(args[0]), deref_all(args[1]))
     if tb == 'PartialEq' and method in ('eq', 'ne') and isinstance(deref_all(args[0]), (FV, FP, IV, BV)):
         r = engine.binop(st, 'Eq', deref_all(args[0]), deref_all(args[1]))
         return r if method == 'eq' else BV(zs(z3.Not(r.t)))
@@ -444,6 +457,13 @@ def std_trait(engine, st, ty, tyb, tb, method, args, dest_ty, trait=None):
         if isinstance(a, Opaque) and isinstance(b, Opaque):
             t = a.name == b.name
             return BV(t if method == 'eq' else not t)
+        for x, y in ((a, b), (b, a)):
+            # a string of which only "is it this literal?" is known (symbolic flag)
+            if isinstance(x, Agg) and x.ty.startswith('StrIs:') and isinstance(y, Opaque):
+                if y.name != x.ty[len('StrIs:'):]:
+                    raise Inconclusive(f'comparison of a flag string {x.ty} with {y.name}')
+                t = x.fields[0].t
+                return BV(zs(t if method == 'eq' else z3.Not(t)))
         if isinstance(a, Agg) and isinstance(b, Agg) and a.ty == b.ty == 'FormattedTime':
             # strings produced by an (injective) formatting stub: equal iff the formatted values are equal
             x, y = a.fields[0], b.fields[0]
@@ -588,6 +608,16 @@ def iterator_method(engine, st, method, args, dest_ty):
             if engine.split_bool(st, r.t):
                 out.append(x)
         return IterV(out)
+    if method == 'filter_map':
+        out = []
+        for x in it.items:
+            r = engine.call_closure(st, args[1], [x])
+            v = r.variant()
+            if v is None:
+                v = 1 if engine.split_bool(st, r.discr == 1) else 0
+            if v == 1:
+                out.append(r.payload[1][0])
+        return IterV(out)
     if method == 'fold':
         acc = args[1]
         clo = args[2]
@@ -614,22 +644,25 @@ def iterator_method(engine, st, method, args, dest_ty):
         x = it.items[n]
         del it.items[:n + 1]
         return mk_option(True, x, ty=dest_ty)
-    if method == 'try_fold':
-        # R = ControlFlow<B, C>: stops at the first Break
-        acc = args[1]
-        clo = args[2]
+    if method in ('try_fold', 'try_for_each'):
+        # R = ControlFlow<B, C> / Result<C, E>: variant 0 continues, variant 1 stops; Option<C>: Some (1) continues, None (0) stops
+        is_opt = base_type(dest_ty or '') == 'Option'
+        go, stop = (1, 0) if is_opt else (0, 1)
+        fold = method == 'try_fold'
+        acc = args[1] if fold else UnitV()
+        clo = args[2] if fold else args[1]
         holder = RefV(Cell(clo), 0, True) if not isinstance(clo, RefV) else clo
         for x in it.items:
-            r = engine.call_closure(st, holder, [acc, x])
+            r = engine.call_closure(st, holder, [acc, x] if fold else [x])
             if not isinstance(r, EnumV):
-                raise Inconclusive('try_fold closure does not return an enum')
+                raise Inconclusive(f'{method} closure does not return an enum')
             v = r.variant()
             if v is None:
                 v = 0 if engine.split_bool(st, r.discr == 0) else 1
-            if v == 1:
-                return EnumV(dest_ty or 'ControlFlow', 1, {1: [r.payload[1][0]]})
-            acc = r.payload[0][0]
-        return EnumV(dest_ty or 'ControlFlow', 0, {0: [acc]})
+            if v == stop:
+                return EnumV(dest_ty or 'ControlFlow', stop, {stop: list(r.payload.get(stop, []))})
+            acc = (r.payload.get(go) or [UnitV()])[0]
+        return EnumV(dest_ty or 'ControlFlow', go, {go: [acc]})
     if method == 'for_each':
         clo = args[1]
         holder = RefV(Cell(clo), 0, True) if not isinstance(clo, RefV) else clo
@@ -728,7 +761,12 @@ def std_path(engine, st, name, args, dest_ty):
             x = deref_all(a)
             return BV(zs(z3.And(z3.Not(x.m), x.v < 0)))
         raise Inconclusive(f'f64::{last} is outside the exact-int back end')
-    if '<impl usize>' in name or '<impl i32>' in name or '<impl u64>' in name:
+    if ('<impl i64>' in name or '<impl i32>' in name or '<impl isize>' in name) and last == 'abs':
+        a = args[0]
+        lo = {'i64': -2 ** 63, 'i32': -2 ** 31, 'isize': -2 ** 63}.get(a.ty, -2 ** 63)
+        st.panic_if(zs(a.t == lo), 'attempt to negate with overflow (abs of MIN)')
+        return IV(zs(z3.If(a.t < 0, -a.t, a.t)), a.ty)
+    if '<impl usize>' in name or '<impl i32>' in name or '<impl u64>' in name or '<impl i64>' in name:
         if last in ('max', 'min'):
             a, b = args
             c = a.t <= b.t
@@ -741,6 +779,9 @@ def std_path(engine, st, name, args, dest_ty):
             a, b = args
             return IV(zs(z3.If(a.t >= b.t, a.t - b.t, 0)), a.ty)
     first = segs[0]
+    # ---- Result
+    if first == 'Result' or (len(segs) >= 2 and segs[-2] == 'Result'):
+        return result_method(engine, st, last, args, dest_ty)
     # ---- Option
     if first == 'Option' or (len(segs) >= 2 and segs[-2] == 'Option'):
         return option_method(engine, st, last, args, dest_ty)
@@ -796,6 +837,41 @@ def std_path(engine, st, name, args, dest_ty):
     if name.endswith('::iter::once') or name == 'once':
         return IterV([args[0]])
     return NotImplemented
+
+
+def result_method(engine, st, method, args, dest_ty):
+    r = args[0]
+    while isinstance(r, RefV):
+        r = r.load()
+    if not isinstance(r, EnumV):
+        raise Inconclusive(f'Result method on {r!r}')
+    if method in ('is_ok', 'is_err'):
+        return BV(zs(r.discr == (0 if method == 'is_ok' else 1)))
+    ok = r.variant()
+    if ok is None:
+        ok = 0 if engine.split_bool(st, r.discr == 0) else 1
+    is_ok = ok == 0
+    val = (r.payload.get(ok) or [UnitV()])[0]
+    if method == 'map':
+        return EnumV(dest_ty or 'Result', 0, {0: [engine.call_closure(st, args[1], [val])]}) if is_ok else EnumV(dest_ty or 'Result', 1, {1: [val]})
+    if method == 'map_err':
+        return EnumV(dest_ty or 'Result', 0, {0: [val]}) if is_ok else EnumV(dest_ty or 'Result', 1, {1: [engine.call_closure(st, args[1], [val])]})
+    if method == 'and_then':
+        return engine.call_closure(st, args[1], [val]) if is_ok else EnumV(dest_ty or 'Result', 1, {1: [val]})
+    if method == 'ok':
+        return mk_option(True, val, ty=dest_ty) if is_ok else mk_option(False, ty=dest_ty)
+    if method == 'err':
+        return mk_option(False, ty=dest_ty) if is_ok else mk_option(True, val, ty=dest_ty)
+    if method in ('unwrap', 'expect'):
+        if not is_ok:
+            st.panic_if(z3.BoolVal(True), f'Result::{method} on Err')
+            st.ended = 'panic'
+            from symex import _PathEnds
+            raise _PathEnds()
+        return val
+    if method == 'unwrap_or':
+        return val if is_ok else args[1]
+    raise Inconclusive(f'Result::{method}')
 
 
 def option_method(engine, st, method, args, dest_ty):
